@@ -1611,6 +1611,7 @@ type Output struct {
 	QueryHandlers      []QueryHandler     `json:"query_handlers"`
 	AuthoritySources   []AuthoritySource  `json:"authority_sources"`
 	AuthorityMentions  []AuthorityMention `json:"authority_mentions"`
+	ValidateAccepting  FuncShape          `json:"validate_accepting_commitments"`
 }
 
 func main() {
@@ -1647,6 +1648,7 @@ func main() {
 	fail(err)
 	out.MsgPaths, out.QueryHandlers, out.AuthoritySources, out.AuthorityMentions, err = handlerTables()
 	fail(err)
+	out.ValidateAccepting = namedFuncShape("x/exchange/keeper/market.go", "validateMarketUpdateAcceptingCommitments")
 	enc := json.NewEncoder(os.Stdout)
 	enc.SetIndent("", " ")
 	fail(enc.Encode(out))
